@@ -261,6 +261,61 @@ def rule_r24_selection(ctx, prog, rule="R24"):
            "a recursive call is not on a proper sub-view of self", what="induction not well-founded")
 
 
+def bulk_result_zip(w):
+    """the `zip(indexes…, values…)` expression whose pairs, in iteration order, make up the map returned by the bulk
+    wrapper: either `zip.collect()` or an IndexMap constructor filled only by `insert(k, v)` with (k, v) the items of one
+    loop over that zip.  None if the result is built any other way."""
+    zips = []
+    for dd in w.reaching_defs(0, w.exits()[0], "term"):
+        f = ds(w.def_expr(0, dd))
+        if not (isinstance(f, tuple) and f[0] == "call"):
+            return None
+        if f[1] == "collect" and f[3]:
+            z = ds(f[3][0])
+            if isinstance(z, tuple) and z[0] == "call" and z[1] == "zip":
+                zips.append(z)
+                continue
+            return None
+        if f[1] in ("new", "with_capacity", "default", "with_capacity_and_hasher", "with_hasher") and "IndexMap" in str(f[2] if len(f) > 2 else ""):
+            pass
+        elif f[1] not in ("new", "with_capacity", "default"):
+            return None
+        # a constructor: every mutation of that map must be an insert of the items of a loop over one zip
+        n_ins = 0
+        for bb, t in w.calls():
+            args = [ds(a) for a in w.call_arg_exprs(bb)]
+            if not args or args[0] != f or not t["arg_tys"] or not t["arg_tys"][0].startswith("&mut "):
+                continue
+            if callee_name(t) != "insert" or len(args) != 3:
+                return None
+
+            def item(e, want):
+                e = ds(e)
+                if not (isinstance(e, tuple) and e[0] == "field" and str(e[2]) == str(want)):
+                    return None
+                e = ds(e[1])
+                if isinstance(e, tuple) and e[0] == "field" and str(e[2]) == "0":
+                    e = ds(e[1])
+                if isinstance(e, tuple) and e[0] == "downcast":
+                    e = ds(e[1])
+                if isinstance(e, tuple) and e[0] == "call" and e[1] == "next" and e[3]:
+                    it = ds(e[3][0])
+                    while isinstance(it, tuple) and it[0] == "call" and it[1] == "into_iter" and it[3]:
+                        it = ds(it[3][0])
+                    return it if isinstance(it, tuple) and it[0] == "call" and it[1] == "zip" else None
+                return None
+            zk, zv = item(args[1], 0), item(args[2], 1)
+            if zk is None or zk != zv:
+                return None
+            zips.append(zk)
+            n_ins += 1
+        if f[1] != "new" and n_ins == 0:
+            return None
+    if not zips or any(z != zips[0] for z in zips):
+        return None
+    return zips[0]
+
+
 def rule_r25_bulk_selection(ctx, prog, rule="R25"):
     """bulk selection writes, for every requested index, the element of that rank (C02, bulk form)"""
     from .bulkselect import BulkProof
@@ -314,15 +369,12 @@ def rule_r25_bulk_selection(ctx, prog, rule="R25"):
         detail = "whole array %s, private copy of the index list %s, values vector of indexes.len() slots %s" % (ok0, ok1, ok2)
         # the returned map pairs indexes[t] with values[t] of that same vector
         okz = False
-        for dd in w.reaching_defs(0, w.exits()[0], "term"):
-            f = ds(w.def_expr(0, dd))
-            if isinstance(f, tuple) and f[0] == "call" and f[1] == "collect":
-                z = ds(f[3][0])
-                if z[0] == "call" and z[1] == "zip":
-                    v = ds(z[3][1])
-                    while isinstance(v, tuple) and v[0] == "call" and v[1] in ("into_iter", "iter", "cloned", "drain") and v[3]:
-                        v = ds(v[3][0])
-                    okz = v == r2
+        z = bulk_result_zip(w)
+        if z is not None:
+            v = ds(z[3][1])
+            while isinstance(v, tuple) and v[0] == "call" and v[1] in ("into_iter", "iter", "cloned", "drain") and v[3]:
+                v = ds(v[3][0])
+            okz = v == r2
         ctx.ob(rule, "bulk/wrapper-pairs-values", okz, w.where(),
                "the returned map zips the index list with the very values vector the recursive routine filled" if okz else
                "the values zipped into the result are not the vector passed to the recursive routine", what="bulk result pairing")
